@@ -321,6 +321,23 @@ def run(repo, rep, tier):
             rep.finding("R14.3", f, n, f"the bin specification with keys {keys} produced here is not accepted by any branch of "
                         f"get_hist_bin (RuntimeError: 'Do not know how to interpret bin specifications') or the accepting branch "
                         f"subscripts a missing key", stmt=f"spec keys {keys}")
+    # ---------------- R14.5: columns of the working frame are derived with index-preserving operations
+    r5 = rep.rule("R14.5", "no freshly indexed pd.Series is assigned into a column of the working frame", floor=2)
+    for f in [x for x in repo.all_functions() if x.module.name.startswith(DF) and "spark" not in x.module.name]:
+        for n in walk_local_stmt(f.node):
+            if isinstance(n, ast.Assign) and any(isinstance(t, ast.Subscript) for t in n.targets):
+                bad = None
+                for cl in ast.walk(n.value):
+                    if isinstance(cl, ast.Call) and (call_name(cl) or "").split(".")[-1] == "Series" and not any(k.arg == "index" for k in cl.keywords):
+                        bad = cl
+                tgt = [t for t in n.targets if isinstance(t, ast.Subscript)][0]
+                frame_like = isinstance(tgt.value, ast.Name) and ("df" in tgt.value.id)
+                if frame_like:
+                    r5.ob(bad is None, f"{f.qualname}: `{norm(n)[:60]}`")
+                    if bad is not None:
+                        rep.finding("R14.5", f, n, f"`{ast.unparse(bad)[:60]}` builds a Series with a fresh 0..n-1 index and assigns it into a column of "
+                                    f"`{tgt.value.id}`: pandas aligns on index labels, so for a dataframe whose index is not 0..n-1 (any row chunk) "
+                                    f"the column becomes NaN / attached to the wrong rows", stmt=f"fresh-index Series into {tgt.value.id}[...]")
     # ---------------- R14.4
     fh = pd_m.functions.get("_fill_histogram")
     if fh is None:
